@@ -110,7 +110,15 @@ def work_contract(job):
                         orec['candidate_replay'] = rr
                 except Exception as e:
                     orec['candidate_replay'] = {'verdict': 'error', 'detail': f'{type(e).__name__}: {e}'}
-            if d['status'] == 'refuted' and d['model'] is not None:
+            if d['status'] == 'refuted' and c.opts.get('replay_direct'):
+                orec['model'] = str(d['model'])[:3000] if d['model'] is not None else None
+                try:
+                    rp.Builder_(repo)        # make sure the modules of the tree under check are the ones imported
+                    orec['replay'] = c.opts['replay_direct'](repo, o.name)
+                    orec['witness'] = orec['replay'].get('input')
+                except Exception as e:
+                    orec['replay'] = {'verdict': 'error', 'detail': f'{type(e).__name__}: {e}'}
+            elif d['status'] == 'refuted' and d['model'] is not None:
                 orec['model'] = str(d['model'])[:3000]
                 if o.kind in ('post', 'raise', 'frame', 'assert', 'safety', 'inv_pres', 'inv_entry', 'pre', 'decreases') and not c.opts.get('no_model_replay'):
                     try:
